@@ -54,10 +54,10 @@ fn render(id: u32, prefix: &[String], seg: Option<&String>) -> String {
         path.push(s);
     }
     let msg = crate::interp::leaf_text(id);
-    if path.is_empty() {
-        msg
-    } else {
-        format!("{} at {}", msg, path.join("/"))
+    let text = if path.is_empty() { msg } else { format!("{} at {}", msg, path.join("/")) };
+    match crate::interp::span_slot(id) {
+        Some(slot) => format!("{} @{}", text, crate::interp::slot_column(slot)),
+        None => text,
     }
 }
 
